@@ -343,26 +343,29 @@ def step (st : St) (tok : List String) (_line : String) (impl : Option String) :
       own ++ (if relay then hs.flatMap relayEndpointSites else [])
     (st, predict "main-loop-tick" fired ++ echoTail impl, judgeAt "main-loop-tick" impl)
   | ["rt", "stall"] =>
-    -- one stalling client ahead of a well-behaved one, on each accept loop; the expectation follows the
-    -- timeout flags regenerated from the source (`Escape.servedBehindSilent` / `servedBehindDeaf`)
-    let ctl2 := if servedBehindSilent controlReadTimeout then "OK_PING" else "timeout"
-    let ctlw := if servedBehindDeaf controlWriteTimeout then "OK_PING" else "timeout"
-    let tr2 := if servedBehindSilent transportPeerIdTimeout then "acked" else "timeout"
+    -- a client that stalls at each blocking step of each accept loop, ahead of a well-behaved one; the expectation
+    -- follows the timeout / retry flags regenerated from the source (`Escape.servedBehind`)
+    let c := fun (site : Site) => if servedBehind (controlBounds 1) site then "OK_PING" else "timeout"
+    let t := fun (site : Site) => if servedBehind (transportBounds 1) site then "acked" else "timeout"
     let tmo := (impl.bind (field · "ctl-timeout")).getD "?"
-    let model := s!"ok ctl-timeout={tmo} ctl-second={ctl2} ctl-wstall={ctlw} ctl-after=OK_PING tr-second={tr2} tr-after=acked"
+    let model := s!"ok ctl-timeout={tmo} ctl-second={c .header} ctl-hdr1={c .header} ctl-hdrpart={c .header} " ++
+      s!"ctl-pay0={c .payload} ctl-payhalf={c .payload} ctl-paym1={c .payload} ctl-wstall={c .write} ctl-after=OK_PING " ++
+      s!"tr-second={t .header} tr-pay={t .payload} tr-after=acked"
+    let ctlReads := ["ctl-second", "ctl-hdr1", "ctl-hdrpart", "ctl-pay0", "ctl-payhalf", "ctl-paym1"]
     let verdict := match impl with
       | none => "ok"
       | some l =>
         if !l.startsWith "ok" then EscapeSpec.judge l
-        else if (field l "tr-second") != some "acked" then
-          "viol:stops-serving-transport:a silent inbound connection keeps the transport accept thread from the next peer"
+        else if (field l "tr-second") != some "acked" || (field l "tr-pay") != some "acked" then
+          "viol:stops-serving-transport:an inbound connection that stalls in its handshake keeps the transport accept thread from the next peer"
         else if (field l "ctl-after") != some "OK_PING" || (field l "tr-after") != some "acked" then
           "viol:stops-serving-after-release:an accept loop does not recover after the stalling client left"
-        else if (field l "ctl-second") != some "OK_PING" then
-          "viol:stops-serving-control:a silent control client keeps the control accept thread from the next client"
-        else if (field l "ctl-wstall") != some "OK_PING" then
-          "viol:stops-serving-control:a control client that never reads its answer keeps the control accept thread from the next client"
-        else "ok"
+        else match ctlReads.find? (fun k => (field l k) != some "OK_PING") with
+          | some k => s!"viol:stops-serving-control:a control client that stalls while being read ({k}) keeps the control accept thread from the next client"
+          | none =>
+            if (field l "ctl-wstall") != some "OK_PING" then
+              "viol:stops-serving-control:a control client that never reads its answer keeps the control accept thread from the next client"
+            else "ok"
     (st, model, verdict)
   | ["rt", _] =>
     -- real threads: the process survived iff the line is there at all; every probe must have been answered
